@@ -137,8 +137,8 @@ class KLpq(CallableModel):
         samples = kwargs.get('samples', self.samples)
         self.q.sample(samples)
         log_w = self.p() - self.q()
-        log_w_norm = log_w - torch.logsumexp(log_w, -1)
-        return torch.sum(log_w_norm.exp() * log_w)
+        log_w_norm = log_w - torch.logsumexp(log_w, -1, keepdim=True)
+        return torch.sum(log_w_norm.exp() * log_w, -1).mean()
 
     def handle_parameter_changed(self, variable, index, event):
         pass
